@@ -457,23 +457,26 @@ pub struct Profile {
     pub big_writes: bool,
     /// route a third of the file / directory / volume calls through the RAII wrappers and the embedded-io traits
     pub wrap: bool,
+    /// open every volume of the scenario (and a root directory on each) before anything else, so that calls on
+    /// several volumes interleave and the tables hold records of different volumes side by side
+    pub all_volumes: bool,
 }
 
 impl Profile {
     pub fn general() -> Profile {
-        Profile { w_open_file: 10, w_read: 10, w_write: 12, w_seek: 8, w_flush: 3, w_close_file: 6, w_delete: 3, w_mkdir: 3, w_open_dir: 4, w_close_dir: 2, w_list: 3, w_find: 3, w_query: 4, w_volume: 1, w_bad: 2, max_write: 3000, big_writes: false, wrap: false }
+        Profile { w_open_file: 10, w_read: 10, w_write: 12, w_seek: 8, w_flush: 3, w_close_file: 6, w_delete: 3, w_mkdir: 3, w_open_dir: 4, w_close_dir: 2, w_list: 3, w_find: 3, w_query: 4, w_volume: 1, w_bad: 2, max_write: 3000, big_writes: false, wrap: false, all_volumes: false }
     }
     pub fn rw() -> Profile {
-        Profile { w_open_file: 8, w_read: 16, w_write: 16, w_seek: 14, w_flush: 2, w_close_file: 4, w_delete: 1, w_mkdir: 0, w_open_dir: 1, w_close_dir: 0, w_list: 0, w_find: 0, w_query: 6, w_volume: 1, w_bad: 1, max_write: 5000, big_writes: false, wrap: false }
+        Profile { w_open_file: 8, w_read: 16, w_write: 16, w_seek: 14, w_flush: 2, w_close_file: 4, w_delete: 1, w_mkdir: 0, w_open_dir: 1, w_close_dir: 0, w_list: 0, w_find: 0, w_query: 6, w_volume: 1, w_bad: 1, max_write: 5000, big_writes: false, wrap: false, all_volumes: false }
     }
     pub fn namespace() -> Profile {
-        Profile { w_open_file: 10, w_read: 2, w_write: 6, w_seek: 1, w_flush: 2, w_close_file: 8, w_delete: 8, w_mkdir: 8, w_open_dir: 6, w_close_dir: 4, w_list: 6, w_find: 6, w_query: 1, w_volume: 1, w_bad: 3, max_write: 1500, big_writes: false, wrap: false }
+        Profile { w_open_file: 10, w_read: 2, w_write: 6, w_seek: 1, w_flush: 2, w_close_file: 8, w_delete: 8, w_mkdir: 8, w_open_dir: 6, w_close_dir: 4, w_list: 6, w_find: 6, w_query: 1, w_volume: 1, w_bad: 3, max_write: 1500, big_writes: false, wrap: false, all_volumes: false }
     }
     pub fn space() -> Profile {
-        Profile { w_open_file: 10, w_read: 2, w_write: 16, w_seek: 2, w_flush: 2, w_close_file: 8, w_delete: 8, w_mkdir: 4, w_open_dir: 2, w_close_dir: 1, w_list: 1, w_find: 1, w_query: 2, w_volume: 1, w_bad: 1, max_write: 6000, big_writes: true, wrap: false }
+        Profile { w_open_file: 10, w_read: 2, w_write: 16, w_seek: 2, w_flush: 2, w_close_file: 8, w_delete: 8, w_mkdir: 4, w_open_dir: 2, w_close_dir: 1, w_list: 1, w_find: 1, w_query: 2, w_volume: 1, w_bad: 1, max_write: 6000, big_writes: true, wrap: false, all_volumes: false }
     }
     pub fn handles() -> Profile {
-        Profile { w_open_file: 12, w_read: 1, w_write: 1, w_seek: 1, w_flush: 1, w_close_file: 10, w_delete: 1, w_mkdir: 1, w_open_dir: 12, w_close_dir: 10, w_list: 1, w_find: 1, w_query: 4, w_volume: 8, w_bad: 8, max_write: 600, big_writes: false, wrap: false }
+        Profile { w_open_file: 12, w_read: 1, w_write: 1, w_seek: 1, w_flush: 1, w_close_file: 10, w_delete: 1, w_mkdir: 1, w_open_dir: 12, w_close_dir: 10, w_list: 1, w_find: 1, w_query: 4, w_volume: 8, w_bad: 8, max_write: 600, big_writes: false, wrap: false, all_volumes: false }
     }
 }
 
@@ -534,6 +537,18 @@ impl GState {
         if self.dirs.is_empty() {
             return Op::OpenRoot(rng.pick(&self.vols).handle);
         }
+        if p.all_volumes {
+            if self.vols.len() < sc.limits.2 {
+                if let Some(v) = sc.vols.iter().enumerate().find(|(i, _)| !self.vols.iter().any(|g| g.vol == *i)) {
+                    return Op::OpenVolume(v.1.slot);
+                }
+            }
+            if self.dirs.len() < sc.limits.0 {
+                if let Some(g) = self.vols.iter().find(|g| !self.dirs.iter().any(|d| d.vol == g.vol)) {
+                    return Op::OpenRoot(g.handle);
+                }
+            }
+        }
         let cb = {
             let l = &sc.vols[self.dirs[0].vol].layout;
             (l.bpc * 512) as usize
@@ -573,8 +588,12 @@ impl GState {
             let ext: String = n[8..].iter().filter(|b| **b != b' ').map(|b| *b as char).collect();
             if ext.is_empty() { base } else { format!("{base}.{ext}") }
         };
+        // names of files that are open right now in this directory: opening / deleting them must be refused
+        let open_here: Vec<Name> = self.files.iter().filter(|f| f.vol == d.vol && f.path.len() == d.path.len() + 1 && f.path[..d.path.len()] == d.path[..]).map(|f| *f.path.last().unwrap()).collect();
         let some_name = |rng: &mut Rng| -> String {
-            if !existing.is_empty() && rng.chance(3, 5) {
+            if !open_here.is_empty() && rng.chance(1, 5) {
+                name_str(rng.pick(&open_here))
+            } else if !existing.is_empty() && rng.chance(3, 5) {
                 name_str(&rng.pick(&existing).0)
             } else {
                 let n = *rng.pick(&NAME_POOL);
